@@ -18,6 +18,7 @@ RULE = ('expression trees of depth 1-6 over + - * / unary minus, parentheses, th
         'evaluated on the reference parser\'s tree of the rendered text. Non-trivial = the expression contains at least one arithmetic operation or '
         'builtin whose exact result was compared (or a literal compared with its written value); distinct = distinct source text.')
 RULE += ' One case in nine is preceded by an arbitrary earlier call on the long-lived parser; after every evaluation the decimal context (precision, rounding, Emax, Emin) must be unchanged.'
+RULE += ' One function-call shape in five puts the results of the same builtin (same extra argument, e.g. round(a, -1) / round(b, -1)) on both sides of an operator.'
 ASSUMPTIONS = ['28 significant digits, round-half-even, applied after every operation including unary minus and abs (the decimal context the language documents)',
                'round(x, n) may refuse a result whose coefficient needs more than 28 digits (quantize); then either the exact value or an error is accepted',
                'division by zero must be an error (class not asserted here)']
